@@ -744,6 +744,14 @@ def entries():
             return b
         reg("utils.coarse_graining.gaussian_blurring")(mk())
 
+    # a short cutoff on a fine grid: most grid points have no particle within range (their value is the initial 0 — an entry the
+    # loop never assigns must not depend on what the allocation returned)
+    @reg("utils.coarse_graining.gaussian_blurring")
+    def _(W, o):
+        ngr = W.obj("ngdilute", lambda: np.array([5, 5]))
+        return Call(lambda: CG().gaussian_blurring(W.s2, W.scal2, ngr, 0.2, W.ppp2, 0.3, o),
+                    files=[(o + "_positions.npy", "npy", lambda r: r[0], None), (o + "_properties.npy", "npy", lambda r: r[1], None)])
+
     # ---- small utilities
     F = lambda: _m("utils.funcs")
     for nm, args in {"kronecker": (1, 1), "nidealfac": (2,), "areafac": (3,), "alpha2factor": (2,), "Wignerindex": (2,), "Legendre_polynomials": (0.3, 3)}.items():
